@@ -98,6 +98,9 @@ def GExpr.discountOKfinite (g : GExpr) : Bool :=
 def GExpr.discountComplete (g : GExpr) : Bool :=
   g.litsIn01 && Cls.all.all (fun c => !(c.inUnit) || !(g.eval c.rep))
 
+/-- the order classes a guard lets through (does not throw on) -/
+def GExpr.acceptedClasses (g : GExpr) : List Cls := Cls.all.filter (fun c => !(g.eval c.rep))
+
 def findSite (sites : List Site) (file fn : String) : Option Site :=
   sites.find? (fun s => s.file == file && s.fn == fn)
 
